@@ -1,3 +1,4 @@
+import HopModel.Model.ClientCfg
 import HopModel.Spec.Handshake
 import HopModel.Driver.Util
 /-
@@ -124,6 +125,40 @@ unless `DisableCertificateValidation`, and an authorized-key set when `EnableAut
 def triOpt (s : String) : Option Bool :=
   if s = "a" then some false else if s = "t" then some true else if s = "f" then some false else none
 
+/-- a(bsent) | t | f as an option that may be unset -/
+def triSet (s : String) : Option (Option Bool) :=
+  if s = "a" then some none else if s = "t" then some (some true) else if s = "f" then some (some false) else none
+
+def cliSN : String := "srv.example"
+
+/-- which expected-name options the Global and the host block set -/
+def cliBlocks (name : String) : Option (ClientCfg.Block × ClientCfg.Block) :=
+  if name = "sn" then some ({}, { sn := some cliSN })
+  else if name = "sn-other" then some ({}, { sn := some "other.example" })
+  else if name = "sn-g" then some ({ sn := some cliSN }, {})
+  else if name = "sn-gh" then some ({ sn := some "other.example" }, { sn := some cliSN })
+  else if name = "ip4" then some ({}, { ip4 := some "127.0.0.1" })
+  else if name = "ip4-other" then some ({}, { ip4 := some "127.0.0.9" })
+  else if name = "ip4-g" then some ({ ip4 := some "127.0.0.1" }, {})
+  else if name = "ip6" then some ({}, { ip6 := some "::1" })
+  else if name = "sn+ip4" then some ({}, { sn := some "other.example", ip4 := some "127.0.0.1" })
+  else if name = "snok+ip4" then some ({}, { sn := some cliSN, ip4 := some "127.0.0.9" })
+  else if name = "host" then some ({}, {})
+  else none
+
+def cliCas (ca : String) : Option (List String × List String) :=
+  if ca = "own" then some ([], ["own"]) else if ca = "other" then some ([], ["other"])
+  else if ca = "none" then some ([], []) else if ca = "split" then some (["other"], ["own"]) else none
+
+def cliNamesA : List ClientCfg.Name := [⟨.dns, cliSN⟩, ⟨.ip4, "127.0.0.1"⟩, ⟨.ip6, "::1"⟩]
+
+def cliSrv (k : String) : Option ClientCfg.Presented :=
+  if k = "A" then some ⟨cliNamesA, some "own"⟩
+  else if k = "B" then some ⟨[⟨.dns, "127.0.0.1"⟩, ⟨.raw, cliSN⟩], some "own"⟩
+  else if k = "otherroot" then some ⟨cliNamesA, some "other"⟩
+  else if k = "selfsigned" then some ⟨cliNamesA, none⟩
+  else none
+
 def stepCfg (_ : Unit) : List String → Unit × String
   | ["cfg", mode, skip, dcv, ak, ag, ca, client, granted] =>
     if mode ≠ "toml" ∧ mode ≠ "struct" then ((), "bad-op") else
@@ -153,6 +188,18 @@ def stepCfg (_ : Unit) : List String → Unit × String
     else if k = "nomatch" ∨ k = "type7f-nomatch" ∨ k = "empty" ∨ k = "ipv4-other" then ((), "h=0 p=none a=1")
     else if k = "ipv4" ∨ k = "binary" then ((), "h=1 p=1 a=1")
     else ((), "bad-op")
+  -- the client side: a Global block and one applied host block (another, not matching, block that would switch
+  -- verification off is in the file too: C20_matchHost_mem), a server presenting certificate A / B under the
+  -- trusted root, A's names under another root, or self-signed.  Both handshake modes give the same verdict.
+  | ["cli", mode, hid, name, gskip, hskip, ca, srv] =>
+    if mode ≠ "toml" ∧ mode ≠ "struct" then ((), "bad-op") else
+    if hid ≠ "disc" ∧ hid ≠ "hid" then ((), "bad-op") else
+    match cliBlocks name, triSet gskip, triSet hskip, cliCas ca, cliSrv srv with
+    | some (g, h), some gs, some hs, some (gc, hc), some p =>
+      let g : ClientCfg.Block := { g with skip := gs, cas := gc }
+      let h : ClientCfg.Block := { h with skip := hs, cas := hc }
+      ((), "h=" ++ b01 (ClientCfg.accepts (ClientCfg.effective g [h]) "127.0.0.1" p))
+    | _, _, _, _, _ => ((), "bad-op")
   | _ => ((), "bad-op")
 
 def mainCfg (_ : List String) : IO Unit := loopLines stepCfg ()
